@@ -60,9 +60,10 @@ def check(ctx):
     else:
         t = show(Norm(fn).term(fn["body"]), 10 ** 6)
         SRCs, TGTs = q.sort_match_arms(SRC), q.sort_match_arms(TGT)
-        ctx.expect(("(slice::is_empty(%s)&&slice::is_empty(%s))=>return Ok(TypeParamMapping::PassThrough)" % (SRCs, TGTs)) in t, "C07.6", "mapping/pass-through-iff-no-generics", fn["sp"],
+        SPEC = "TypeParamMapping::Specified(Iterator::collect(Iterator::map(Iterator::enumerate(%s),|1|{(C1_0.1,C1_0.0)})))" % SRCs
+        ctx.expect(("Ok(if((slice::is_empty(%s)&&slice::is_empty(%s))){TypeParamMapping::PassThrough}else{" % (SRCs, TGTs)) in t, "C07.6", "mapping/pass-through-iff-no-generics", fn["sp"],
                    "PassThrough iff neither the source nor the target path declares generic arguments", "pass-through guard changed")
-        ctx.expect(t.endswith("}Ok(TypeParamMapping::Specified(Iterator::collect(Iterator::map(Iterator::enumerate(%s),|1|{(C1_0.1,C1_0.0)}))))" % SRCs), "C07.6", "mapping/index-by-source-position", fn["sp"],
+        ctx.expect(("}else{%s})" % SPEC) in t, "C07.6", "mapping/index-by-source-position", fn["sp"],
                    "each source parameter ident is mapped to its own position among the SOURCE arguments (enumerate, order-preserving)", "mapping construction changed: " + t[-400:])
     # replacer
     expect_fn(ctx, "C07.7", "replacer", "substitutes::replace_path_params_recursively",
@@ -70,9 +71,9 @@ def check(ctx):
               "all segments and all angle-bracketed type-path arguments are visited; an argument that is exactly a mapped ident is replaced by the resolved type (only write); "
               "everything else is searched recursively", "scale_typegen")
     expect_fn(ctx, "C07.7", "replacer/ident-shape", "substitutes::get_ident_from_type_path",
-              "early{Option::is_some(P0.qself)=>return v1::None;Option::is_some(P0.path.leading_colon)=>return v1::None;(Punctuated::len(P0.path.segments)>'1')=>return v1::None;"
-              "!let v1::Some($)=Punctuated::last(P0.path.segments)=>return v1::None;Not(PathArguments::is_empty(Punctuated::last(P0.path.segments)@v1::Some.0.arguments))=>return v1::None}"
-              "Some(Punctuated::last(P0.path.segments)@v1::Some.0.ident)",
+              "if(Option::is_some(P0.qself)){v1::None}else{if(Option::is_some(P0.path.leading_colon)){v1::None}else{if((Punctuated::len(P0.path.segments)>='2')){v1::None}else{"
+              "if(let v1::Some($)=Punctuated::last(P0.path.segments)){then(PathArguments::is_empty(Punctuated::last(P0.path.segments)@v1::Some.0.arguments),Punctuated::last(P0.path.segments)@v1::Some.0.ident)}"
+              "else{v1::None}}}}",
               "a parameter use is a bare single-segment path without qself, leading `::` or own arguments", "scale_typegen")
     # key ignores generics
     expect_fn(ctx, "C07.8", "key/idents-only", "substitutes::path_segments", "Iterator::collect(Iterator::map(Punctuated::iter(P0.segments),|1|{ToString::to_string(C1_0.ident)}))",
